@@ -33,8 +33,14 @@
 /* Transcript                                                                 */
 /*============================================================================*/
 
-static char *tr_buf = NULL;
-static size_t tr_len = 0, tr_cap = 0;
+#ifdef SIM_THREADS
+#define SIM_TLS __thread
+#else
+#define SIM_TLS
+#endif
+
+static SIM_TLS char *tr_buf = NULL;
+static SIM_TLS size_t tr_len = 0, tr_cap = 0;
 
 /* The transcript buffer is allocated with the real allocator and is never
  * subject to fault injection. */
@@ -380,6 +386,18 @@ static void *sim_sys_malloc(size_t n) { return __real_malloc(n); }
 static void sim_sys_free(void *p) { __real_free(p); }
 
 #else
+
+/* Without the wrapped allocator (static allocation builds) the fault window is inert. */
+typedef struct {
+	int active;
+	long count;
+	long fail_at[4];
+	long fired;
+	long live;
+	uint64_t fill;
+	int fill_on;
+} sim_alloc_t;
+static sim_alloc_t sim_alloc;
 
 static void *sim_sys_realloc(void *p, size_t n) { return realloc(p, n); }
 static void *sim_sys_malloc(size_t n) { return malloc(n); }
